@@ -5,7 +5,7 @@
 (*   construct / reset_values : vals, dt                                   *)
 (*   add_constant : c, after        add_series / add_signal : s, after     *)
 (*   running_average : w, after     remove_average / rebase_displacement : *)
-(*   after                          havoc : name, deg, after               *)
+(*   after                          havoc : name, deg, after [, cold]      *)
 (*   read : what, k, val  (val = <<re, im>> for "fas", else <<x, 0>>)      *)
 (* `after` is the record the real object holds after the call.             *)
 (* Clauses: Def_<op> (the object's new record is what the operation        *)
@@ -65,6 +65,11 @@ Step ==
             /\ bad' = bad \cup Fails(Len(e.after) = Len(vals), "Havoc_" \o e.name \o "_length")
                            \cup (IF e.deg >= 0 /\ Len(e.after) = Len(vals)
                                  THEN Fails(DetrendOK(vals, e.after, e.deg, FMul(FStr("1e-7"), S)), "Havoc_" \o e.name) ELSE {})
+                           \* the operation is a function of the record and the settings: the same call on a freshly
+                           \* constructed object (nothing read before) leaves the same record
+                           \cup (IF "cold" \in DOMAIN e
+                                 THEN Fails(Len(e.cold) = Len(e.after) /\ SeqNear(e.after, e.cold, FMul(FStr("1e-9"), S)), "Havoc_" \o e.name \o "_history")
+                                 ELSE {})
        [] op = "read" ->
             /\ vals' = vals /\ dt' = dt /\ bad' = bad \cup Fails(ReadOK(e), "Read_" \o e.what)
        [] OTHER -> /\ vals' = vals /\ dt' = dt /\ bad' = bad \cup {"UnknownOp"}
